@@ -80,6 +80,9 @@ PROPS = {
     "C15": dict(pkg="c15", level="exploration",
                 quick=[R(checks=2500)],
                 thorough=[R(checks=10000, shards=16, timeout=1800)]),
+    "C16": dict(pkg="c16", level="exploration",
+                quick=[R(checks=100, shards=8, env={"VERIF_JOURNAL": "1"}, timeout=900)],
+                thorough=[R(checks=600, shards=16, env={"VERIF_JOURNAL": "1"}, timeout=2400)]),
     "C18": dict(pkg="c18", level="exploration",
                 quick=[R(checks=4000)],
                 thorough=[R(checks=20000, shards=16, timeout=1800)]),
